@@ -10,6 +10,7 @@ import (
 
 	"github.com/luthersystems/elps/lisp"
 	"github.com/luthersystems/elps/lisp/lisplib/internal/libutil"
+	"github.com/luthersystems/elps/parser/token"
 )
 
 // DefaultPackageName is the package name used by LoadPackage.
@@ -397,7 +398,18 @@ type validatorTag struct{}
 // evaluated, never bound into a scope, and never written after init.  A
 // per-runtime marker would break nothing but would also credential nothing:
 // its whole value is that every runtime recognizes the same pointer.
-var validatorMarker = lisp.Native(&validatorTag{}) //elpsvet:allow identity-only credential; read-only after init
+var validatorMarker = newValidatorMarker() //elpsvet:allow identity-only credential; read-only after init
+
+// newValidatorMarker gives the marker a real source location.  A validator
+// may appear in a macro expansion, and macro-expansion stamping fills in the
+// location of every node of an expansion that has none: without a location
+// the first runtime to expand such a macro would write to this process-wide
+// cell while other runtimes read it.
+func newValidatorMarker() *lisp.LVal {
+	v := lisp.Native(&validatorTag{})
+	v.SetSource(&token.Location{File: "libschema", Path: "libschema", Pos: 0})
+	return v
+}
 
 // A validator LFun's cells are [formals, docstring, marker].  The first two
 // come from lisp.FunInPackage; newValidator appends the third.  For a builtin
